@@ -75,9 +75,9 @@ DevTab == [none  |-> [has |-> FALSE, brand |-> "",       model |-> "",       sto
 \* from their product: pairwise / t-wise covering, seeded)
 CandDims == [plugName |-> <<"iface", "p1">>,
              slotName |-> <<"iface", "s1">>,
-             plugA    |-> <<"-", "A", "B">>,
+             plugA    |-> <<"-", "A", "B", "L:A,B", "L:A">>,
              plugB    |-> <<"-", "A">>,
-             slotA    |-> <<"-", "A", "B", "pub1">>,
+             slotA    |-> <<"-", "A", "B", "pub1", "L:A,B">>,
              slotB    |-> <<"-", "A", "B">>,
              plugType |-> <<"app", "gadget", "os", "snapd", "kernel">>,
              slotType |-> <<"app", "gadget", "os", "snapd", "kernel">>,
@@ -102,7 +102,8 @@ CandList == <<
   [C0 EXCEPT !.slotName = "s1", !.plugAttrs = [a |-> "B", b |-> "-"], !.slotAttrs = [a |-> "B", b |-> "B"], !.plugType = "os", !.slotType = "kernel", !.slotDecl = "d1", !.sys = "ubuntu", !.dev = "m1bad"],
   [C0 EXCEPT !.plugAttrs = [a |-> "A", b |-> "A"], !.slotAttrs = [a |-> "-", b |-> "A"], !.plugDecl = "d2", !.slotDecl = "d2", !.slotType = "snapd", !.sys = "ubuntu", !.dev = "m3s"],
   [C0 EXCEPT !.plugName = "p1", !.slotName = "s1", !.slotAttrs = [a |-> "pub1", b |-> "-"], !.plugType = "snapd", !.slotType = "os", !.slotDecl = "d1", !.sys = "desktop", !.dev = "m1"],
-  [C0 EXCEPT !.plugAttrs = [a |-> "A", b |-> "A"], !.slotAttrs = [a |-> "A", b |-> "A"], !.plugDecl = "d2", !.slotDecl = "d1", !.dev = "m2"]
+  [C0 EXCEPT !.plugAttrs = [a |-> "A", b |-> "A"], !.slotAttrs = [a |-> "A", b |-> "A"], !.plugDecl = "d2", !.slotDecl = "d1", !.dev = "m2"],
+  [C0 EXCEPT !.plugAttrs = [a |-> "L:A,B", b |-> "-"], !.slotAttrs = [a |-> "L:A,B", b |-> "A"], !.slotType = "app", !.sys = "ubuntu", !.dev = "m1"]
 >>
 
 PlugID(c)  == PlugDeclTab[c.plugDecl].id
@@ -170,8 +171,14 @@ CheckNames(names, name) ==
   names = {} \/ \E m \in names : IF m = "$INTERFACE" THEN name = IFACE ELSE m = name
 
 \* attribute matchers: "$MISSING", "$SLOT(x)", "$PLUG(x)", "$PLUG_PUBLISHER_ID",
-\* "$SLOT_PUBLISHER_ID", or an anchored regexp ("A", "B", "A|B", "pub1")
-Lits(m) == IF m = "A|B" THEN {"A", "B"} ELSE {m}
+\* "$SLOT_PUBLISHER_ID", an anchored regexp ("A", "B", "A|B", "pub1") or "ALT:A,B"
+\* "ALT:A,B" is the list form [A, B] of alternative attribute matchers (altAttrMatcher)
+Lits(m) == IF m \in {"A|B", "ALT:A,B"} THEN {"A", "B"} ELSE {m}
+\* attribute values are scalars, or lists written "L:x,y" (the Go driver turns them into YAML lists):
+\* a regexp constraint must match every element of a list (matchList); $SLOT()/$PLUG() compare whole
+\* values (reflect.DeepEqual: a scalar never equals a list); publisher references want a string
+IsList(v) == v \in {"L:A", "L:A,B"}
+Elems(v) == IF v = "L:A,B" THEN {"A", "B"} ELSE IF v = "L:A" THEN {"A"} ELSE {v}
 EvalRefs == [slotA |-> "$SLOT(a)", slotB |-> "$SLOT(b)", plugA |-> "$PLUG(a)", plugB |-> "$PLUG(b)"]
 
 \* ctx: TRUE for connections (AttrMatchContext available), FALSE for installation
@@ -182,9 +189,9 @@ MatchEntry(m, v, cand, ctx) ==
   ELSE IF m = "$SLOT(b)" THEN ctx /\ cand.slotAttrs.b # "-" /\ v = cand.slotAttrs.b
   ELSE IF m = "$PLUG(a)" THEN ctx /\ cand.plugAttrs.a # "-" /\ v = cand.plugAttrs.a
   ELSE IF m = "$PLUG(b)" THEN ctx /\ cand.plugAttrs.b # "-" /\ v = cand.plugAttrs.b
-  ELSE IF m = "$PLUG_PUBLISHER_ID" THEN ctx /\ v = PlugPub(cand)
-  ELSE IF m = "$SLOT_PUBLISHER_ID" THEN ctx /\ v = SlotPub(cand)
-  ELSE v \in Lits(m)
+  ELSE IF m = "$PLUG_PUBLISHER_ID" THEN ctx /\ ~IsList(v) /\ v = PlugPub(cand)
+  ELSE IF m = "$SLOT_PUBLISHER_ID" THEN ctx /\ ~IsList(v) /\ v = SlotPub(cand)
+  ELSE Elems(v) \subseteq Lits(m)
 
 CheckAttrs(ms, attrs, cand, ctx) ==
   \A k \in {"a", "b"} : ms[k] = "-" \/ MatchEntry(ms[k], attrs[k], cand, ctx)
@@ -397,7 +404,7 @@ SlotConnCons == <<
   [NoC EXCEPT !.plugAttrs = PA("$MISSING", "-")],                               \*  9
   [NoC EXCEPT !.slotAttrs = PA("$PLUG(a)", "-")],                               \* 10
   [NoC EXCEPT !.plugAttrs = PA("-", "$SLOT(b)")],                               \* 11
-  [NoC EXCEPT !.slotAttrs = PA("A|B", "-"), !.plugAttrs = PA("A", "-")],        \* 12
+  [NoC EXCEPT !.slotAttrs = PA("ALT:A,B", "-"), !.plugAttrs = PA("A", "-")],    \* 12
   [NoC EXCEPT !.slotAttrs = PA("$PLUG_PUBLISHER_ID", "-")],                     \* 13
   [NoC EXCEPT !.slotNames = {"$INTERFACE"}],                                    \* 14
   [NoC EXCEPT !.slotNames = {"s1", "$INTERFACE"}, !.plugNames = {"p1"}],        \* 15
